@@ -317,6 +317,8 @@ impl Event<App> for Ev {
 
 #[derive(Clone, Debug, Serialize, Deserialize, PartialEq)]
 pub enum Limit {
+    /// `RuntimeLimit::None`: never holds (as a leaf of a tree as well)
+    Never,
     Count(usize),
     Time(u128),
     And(Box<Limit>, Box<Limit>),
@@ -327,6 +329,7 @@ impl Limit {
     /// Own evaluator of "the limit stops before the `count`-th event with timestamp `time`".
     pub fn stops(&self, count: usize, time: u128) -> bool {
         match self {
+            Limit::Never => false,
             Limit::Count(n) => count > *n,
             Limit::Time(t) => time > *t,
             Limit::And(a, b) => a.stops(count, time) && b.stops(count, time),
@@ -335,6 +338,7 @@ impl Limit {
     }
     pub fn to_des(&self) -> RuntimeLimit {
         match self {
+            Limit::Never => RuntimeLimit::None,
             Limit::Count(n) => RuntimeLimit::EventCount(*n),
             Limit::Time(t) => RuntimeLimit::SimTime(st(*t)),
             Limit::And(a, b) => RuntimeLimit::CombinedAnd(Box::new(a.to_des()), Box::new(b.to_des())),
@@ -343,7 +347,7 @@ impl Limit {
     }
     pub fn depth(&self) -> usize {
         match self {
-            Limit::Count(_) | Limit::Time(_) => 1,
+            Limit::Never | Limit::Count(_) | Limit::Time(_) => 1,
             Limit::And(a, b) | Limit::Or(a, b) => 1 + a.depth().max(b.depth()),
         }
     }
